@@ -189,13 +189,14 @@ impl<'x> VisitMut for CallReplacer<'x> {
 struct SelfReplacer<'x> {
     name: &'x str,
     with: &'x Expr,
+    paren: bool,
 }
 impl<'x> VisitMut for SelfReplacer<'x> {
     fn visit_expr_mut(&mut self, e: &mut Expr) {
         if let Expr::Path(p) = e {
             if p.path.is_ident(self.name) {
                 let w = self.with;
-                *e = syn::parse_quote!((#w));
+                *e = if self.paren { syn::parse_quote!((#w)) } else { w.clone() };
                 return;
             }
         }
@@ -246,7 +247,7 @@ impl<'c, 'a, 't> VisitMut for R9<'c, 'a, 't> {
         early.visit_expr(&closure_inner_body(&closure));
         let lifted_call: Option<Expr> = match &lift {
             Some(l) if !l.is_null() => {
-                let name = syn::Ident::new(l["name"].as_str().unwrap(), Span::call_site());
+                let name: syn::Expr = syn::parse_str(l["name"].as_str().unwrap()).expect("lift name");
                 let caps: Vec<Expr> = captured_args(l["params"].as_str().unwrap_or(""));
                 Some(syn::parse_quote!(#name(#(#caps),*)))
             }
@@ -258,10 +259,13 @@ impl<'c, 'a, 't> VisitMut for R9<'c, 'a, 't> {
         }
         let fnp = t.fn_param.clone().unwrap_or_default();
         let mut body = t.body.clone();
+        // the template's `self` first becomes a placeholder so that a `self` inside the closure is left alone
+        let placeholder: Expr = syn::parse_quote!(__vp_recv);
+        SelfReplacer { name: &t.self_name, with: &placeholder, paren: false }.visit_expr_mut(&mut body);
         let mut cr = CallReplacer { fn_param: &fnp, closure: &closure, lifted: lifted_call.as_ref(), count: 0 };
         cr.visit_expr_mut(&mut body);
         let recv = (*mc.receiver).clone();
-        SelfReplacer { name: &t.self_name, with: &recv }.visit_expr_mut(&mut body);
+        SelfReplacer { name: "__vp_recv", with: &recv, paren: true }.visit_expr_mut(&mut body);
         let line = mc.method.span().start().line;
         self.cx.log.push(json!({"rule": if lifted_call.is_some() { "R10" } else { "R9" }, "line": line,
             "what": format!("{} with closure #{}: body of the combinator ({}) inlined, closure {}", key, ord, t.source,
